@@ -29,8 +29,9 @@ by `Get` is handed to nobody else until it is `Put` (rule `getPool` removes the 
 contract-violating action `getAliased` is included so that the model *can* exhibit interference (see
 `Cvss/Props/C14.lean`, `C14.aliasing_breaks`); the theorems quantify over schedules without it.
 
-The tie to the source is `GenV20.srchash_ParseVector` / `srchash_split` (`Cvss/Model/SrcTie.lean`) and the
-regenerated shared-state fact lists `GenV20.pkg_calls` etc. (checked in `Cvss/Props/C14.lean`).
+The tie to the source is `Cvss/Props/C14b.lean` (each step of the machine is one application of the regenerated loop
+bodies `GenP20.split_for1` / `GenP20.ParseVector_range1`) and the regenerated shared-state fact lists `GenV20.pkg_calls`
+etc. (checked in `Cvss/Props/C14.lean`).
 Core-only (no Mathlib).
 -/
 namespace Model
